@@ -9,11 +9,11 @@ and the lengths of the lists are irrelevant). Go strings are byte lists in the t
 in the model: `containsAll` is the instance at `List Char` of the polymorphic `fun src dst => dst.all
 (src.contains ·)`, the theorem is about the instance at `List UInt8`.
 
-Registered as change detector (`pins_module`): when `contains` is rewritten so that this proof no longer goes
+Part of the change detectors (imported by `Props/C04Pins.lean`, the `pins_module`): when `contains` is rewritten so that this proof no longer goes
 through, the check widens the streams (which compare `route weight`/`route del` over tag lists with repeated,
 missing and surplus tags against the model) instead of claiming a violation.
 -/
-namespace Fabio.Props.C04Xlate
+namespace Fabio.Props.C04Pins.Xlate
 open Fabio.Xlate Fabio.Generated.C04 Fabio.Generated.C04.XContains
 
 /-- the model's function at the translation's string type -/
@@ -117,4 +117,4 @@ example : XContains.translated = true := rfl
 /-- nothing of `contains` was left untranslated (a construct outside the translator's subset would be listed) -/
 theorem xlate_everything_translated : Fabio.Generated.C04.xlateNotes = [] := by decide
 
-end Fabio.Props.C04Xlate
+end Fabio.Props.C04Pins.Xlate
